@@ -46,6 +46,7 @@ int sm4_cbc_padding_decrypt(const SM4_KEY *key, const uint8_t piv[16],
 	uint8_t block[16];
 	size_t len = sizeof(block);
 	int padding;
+	int i;
 
 	memcpy(iv, piv, 16);
 
@@ -67,6 +68,13 @@ int sm4_cbc_padding_decrypt(const SM4_KEY *key, const uint8_t piv[16],
 	if (padding < 1 || padding > 16) {
 		error_print();
 		return -1;
+	}
+	// every padding byte carries the padding length (PKCS #7)
+	for (i = 16 - padding; i < 16; i++) {
+		if (block[i] != padding) {
+			error_print();
+			return -1;
+		}
 	}
 	len -= padding;
 	memcpy(out + inlen - 16, block, len);
